@@ -240,7 +240,20 @@ func basicLatinSiblingForms(c *Ctx, rule string) {
 			case !folds && iFold >= 0:
 				bad = append(bad, "the input rune is folded on a path that does not establish "+param+".ignoreCase")
 			}
-			for _, f := range p[iLoop:].facts() {
+			// the member tests: conditions assumed on the path, and the conjuncts of a value stored into a result flag
+			// (`found = cur >= lo && cur <= hi` decides like `if cur >= lo && cur <= hi { found = true }`)
+			tests := p[iLoop:].facts()
+			for _, e := range p[iLoop:] {
+				if e.Kind != "set" {
+					continue
+				}
+				if k := indexTop(e.Text, "="); k > 0 && k+1 < len(e.Text) && e.Text[k+1] != '=' {
+					for _, d := range splitTop(e.Text[k+1:], "||") {
+						tests = append(tests, splitTop(d, "&&")...)
+					}
+				}
+			}
+			for _, f := range tests {
 				mentions := strings.Contains(f, param+".chars[") || strings.Contains(f, param+".ranges[") || strings.Contains(f, param+".classes[")
 				if !mentions {
 					continue
